@@ -50,6 +50,12 @@ def run(res, tier, seed):
         cases = [ops.build(name, g, None, 140) for name in OPS for _ in range(n)]
         cases += [ops.build(name, g, lambda role: {"wo": g.rng.choice([1, 3])}, 100) for name in OPS for _ in range(max(2, n // 2))]
         cases += [ops.build(name, g, lambda role: {"wo": g.rng.choice([0, 2])}, 100) for name in OPS for _ in range(max(2, n // 2))]
+        # mixed phases: each operand independently owned / window at an even / odd word offset (row starts 0 and 8 mod 16
+        # in the same call), rows of at least 4 words so that the vector loops are entered
+        def mixed(role):
+            x = g.rng.random()
+            return None if x < 0.34 else {"wo": g.rng.choice([0, 2])} if x < 0.67 else {"wo": g.rng.choice([1, 3])}
+        cases += [ops.build(name, g, mixed, 330) for name in OPS for _ in range(max(3, n // 2))]
         cout = runner.run_c(cases)
         seen = set()
         for c in cases:
@@ -68,6 +74,32 @@ def run(res, tier, seed):
                 res.violation(vlib.write_replay("C11", c.meta.get("op", "x"), "# C11: fate %s in build %s\nmeta: %r\n--- script\n%s--- C side\n%s\n%s\n" % (
                     fate, v["name"], c.meta, c.text(), "\n".join(x[:300] for x in (o[1] if o else [])), o[2] if o else "")))
         res.cov.setdefault("fates", {})[v["name"]] = {f: sum(1 for c in cases if (cout.get(c.id) or ("MISSING",))[0] == f) for f in set((cout.get(c.id) or ("MISSING",))[0] for c in cases)}
+    # the block-recursive PLE (Schur complement, _mzd_compress_l word moves) and what is built on it, under the sanitizers:
+    # only a small-L3 build enters the recursion at sizes a sanitized run can afford
+    vs = vlib.variant(name="asan-stress", san="asan", opt="-O1", l1=4096, l2=32768, l3=4096)
+    rec_ops = [nm for nm, d in sorted(ops.CATALOG.items()) if d["prop"] in ("C03", "C06", "C07") or nm in ("echelonize_pluq", "echelonize")]
+    runner = corr.Runner(vs)
+    g = gen.G(seed + 17)
+    ops.REC_BIAS, ops.REC_WORDS = 0.6, ops.ple_cutoff_words(vs)
+    try:
+        cases = [ops.build(name, g, None, 260) for name in rec_ops for _ in range((3 * n if name in ("ple", "pluq") else n) if tier == "quick" else n // 2)]
+    finally:
+        ops.REC_BIAS = 0.0
+    cout = runner.run_c(cases)
+    seen = set()
+    for c in cases:
+        res.count((vs["name"], c.meta.get("op"), tuple(s_ // 64 for s_ in c.meta.get("shape", ()))))
+        o = cout.get(c.id)
+        fate = o[0] if o else "MISSING"
+        if fate != "OK" and (c.meta.get("op"), fate) not in seen:
+            e = engine.match_known("C11", c, {"fate": fate, "windowed": any(l.startswith("win ") for l in c.lines)})
+            if e is not None:
+                res.known_finding("%s: %s" % (e.get("id"), e.get("what")))
+                continue
+            seen.add((c.meta.get("op"), fate))
+            res.violation(vlib.write_replay("C11", c.meta.get("op", "x"), "# C11: fate %s in build %s\nmeta: %r\n--- script\n%s--- C side\n%s\n%s\n" % (
+                fate, vs["name"], c.meta, c.text(), "\n".join(x[:300] for x in (o[1] if o else [])), o[2] if o else "")))
+    res.cov.setdefault("fates", {})[vs["name"]] = {f: sum(1 for c in cases if (cout.get(c.id) or ("MISSING",))[0] == f) for f in set((cout.get(c.id) or ("MISSING",))[0] for c in cases)}
     # guards
     g = gen.G(seed + 3)
     bad = bad_dim_cases(g, 3 if tier == "quick" else 20)
